@@ -69,7 +69,7 @@ fn parse_case_line(line: &str) -> Option<(Vec<i64>, String)> {
 }
 
 fn main() {
-  std::panic::set_hook(Box::new(|_| {}));
+  if std::env::var_os("VH_PANIC").is_none() { std::panic::set_hook(Box::new(|_| {})); }
   let args: Vec<String> = std::env::args().collect();
   if args.len() < 4 { eprintln!("usage: vharness <prop> gen <seed> <tier> <out> [corpus...] | replay <file>"); std::process::exit(2); }
   let pid = args[1].to_uppercase();
